@@ -1,24 +1,28 @@
 #!/bin/bash
-# usage: verify_seed.sh <dir with patch.diff and demo.rs> ; confirms in a scratch worktree that the
+# usage: [WT=<scratch worktree>] verify_seed.sh <dir with patch.diff and demo.rs> ; confirms in a scratch worktree that the
 # change compiles, the demo fails with it and passes without it, and the unit + integration tests
-# of the stable baseline still pass with it.
+# of the stable baseline still pass with it. (Tests run in a private network namespace: the remote
+# tests of the suite bind fixed loopback ports and clash with anything else running them.)
 set -u
-SEED="$1"
-WT=/tmp/wt-verify
-export CARGO_TARGET_DIR=/tmp/wt-verify-target
+SEED="$(cd "$1" && pwd)"
+WT="${WT:-/tmp/wt-verify}"
+export CARGO_TARGET_DIR="${WT_TARGET:-$WT/target}"
 export CARGO_NET_OFFLINE=true
+export RSTREAM_TEST_TIMEOUT=300
+NS="unshare -n sh -c"
+if ! unshare -n true 2>/dev/null; then NS="sh -c"; fi
 if [ ! -d "$WT" ]; then git -C /repo worktree add -q --detach "$WT" HEAD; fi
 cd "$WT" && git checkout -q --detach "$(git -C /repo rev-parse HEAD)" && git checkout -q -- . && git clean -fdq tests src
 cp "$SEED/demo.rs" tests/seed_demo.rs
 echo "== demo WITHOUT the change"
-cargo test --offline --test seed_demo 2>&1 | grep -E "^test |test result|error" | head -20
+$NS "ip link set lo up 2>/dev/null; cargo test --offline --test seed_demo 2>&1" | grep -E "^test |test result|error" | head -20
 if ! git apply --check "$SEED/patch.diff" 2>/dev/null; then echo "PATCH DOES NOT APPLY"; exit 3; fi
 git apply "$SEED/patch.diff"
 echo "== build WITH the change"
 cargo build --offline 2>&1 | grep -E "^error|Finished" | head -5
 echo "== demo WITH the change"
-cargo test --offline --test seed_demo 2>&1 | grep -E "^test |test result|error" | head -20
+$NS "ip link set lo up 2>/dev/null; cargo test --offline --test seed_demo 2>&1" | grep -E "^test |test result|error" | head -20
 rm tests/seed_demo.rs
 echo "== existing tests WITH the change (lib + integration, no doc tests)"
-cargo test --offline --no-fail-fast --lib --tests 2>&1 | grep -E "^test .*FAILED|test result" | sort | uniq -c | sort -rn | head -40
+$NS "ip link set lo up 2>/dev/null; cargo test --offline --no-fail-fast --lib --tests 2>&1" | grep -E "^test .*FAILED|test result" | sort | uniq -c | sort -rn | head -40
 git checkout -q -- . 
